@@ -122,7 +122,7 @@ type UDPPeer struct {
 // Once from SetLoop(true) and once from the router. Your network router sees
 // the packets sent by the writer and destined to a routable multicast IP coming
 // in and it routes them back to your machine.
-func NewUDPPeer(ioc *sonic.IO, network string, addr string) (*UDPPeer, error) {
+func NewUDPPeer(ioc *sonic.IO, network string, addr string) (peer *UDPPeer, err error) {
 	resolvedAddr, err := net.ResolveUDPAddr(network, addr)
 
 	if err != nil {
@@ -146,6 +146,13 @@ func NewUDPPeer(ioc *sonic.IO, network string, addr string) (*UDPPeer, error) {
 		return nil, fmt.Errorf(
 			"could not create socket domain=%s err=%v", domain, err)
 	}
+
+	defer func() {
+		// Whatever goes wrong from here on, do not leak the socket.
+		if err != nil {
+			_ = socket.Close()
+		}
+	}()
 
 	if err := socket.SetNonblocking(true); err != nil {
 		return nil, fmt.Errorf("cannot make socket nonblocking")
